@@ -379,5 +379,61 @@ func TestVerifC17(t *testing.T) {
 	}
 	c17Order(r, maxLen)
 	c17FailClosed(r, ctxLen)
+	c17OddKeys(r)
 	c17Binary(t, r)
+}
+
+// c17OddKeys: unusual but non-empty apiKey payloads. Whatever the factory makes of them (it may
+// refuse them: fail closed), a chain that does start must still reject a request that carries no
+// credential, an empty one, or a blank one.
+func c17OddKeys(r *vres.Report) {
+	shard, _ := shardOf()
+	if shard != 0 {
+		return
+	}
+	var evals int64
+	var outs vres.Outcomes
+	for _, key := range []string{" ", "\t", " \n", "  sesame  ", "sesame ", "a b", "0", "false", "null"} {
+		for _, pos := range []int{0, 1} {
+			chain := []config.PluginConfig{probe(0), {Name: "custom-auth", Config: map[string]interface{}{"apiKey": key}}, probe(1)}
+			if pos == 1 {
+				chain = append([]config.PluginConfig{{Name: "logging"}}, chain...)
+			}
+			base := 0
+			h, err := plugins.BuildChain(config.PluginsConfig{Enabled: true, Chain: chain}, http.HandlerFunc(func(w http.ResponseWriter, r *http.Request) {
+				base++
+				w.Write([]byte("ok"))
+			}))
+			if err != nil {
+				outs.Add("refused-at-startup")
+				continue
+			}
+			for _, cred := range []struct {
+				label string
+				set   bool
+				val   string
+			}{{"no-header", false, ""}, {"empty-header", true, ""}, {"blank-header", true, " "}, {"wrong", true, "nope"}} {
+				if cred.set && cred.val == key {
+					continue // that is the configured credential
+				}
+				c17Trace = nil
+				base = 0
+				req := httptest.NewRequest("GET", "http://x.test/p", nil)
+				if cred.set {
+					req.Header["X-Api-Key"] = []string{cred.val}
+				}
+				rec := httptest.NewRecorder()
+				h.ServeHTTP(rec, req)
+				evals++
+				outs.Add(fmt.Sprintf("%s/%d", cred.label, rec.Code))
+				if base != 0 || rec.Code < 400 {
+					r.Violate("C17/gating/request-without-credential-admitted", fmt.Sprintf("custom-auth configured with apiKey %q: a request with %s got status %d and reached the backend %d time(s)", key, cred.label, rec.Code, base), 1,
+						map[string]interface{}{"apiKey": key, "request": cred.label})
+				}
+			}
+		}
+	}
+	r.AddScenario(vres.Scenario{Name: "odd-api-keys", Engine: "W", Evaluations: evals, Distinct: int64(outs.N()), Outcomes: outs.N(),
+		Rule:  "custom-auth built with nine unusual non-empty apiKey payloads (blank, padded, with inner space, scalars that look like other YAML types) at two chain positions; requests with no, an empty, a blank and a wrong credential must all be rejected before the backend (or the chain must refuse to start)",
+		Bound: "full product", Exhaustive: true})
 }
